@@ -3,7 +3,7 @@
    The lookup/duplicate half of the property (which entry a name finds in a directory) is decided by
    correspondence runs against the real API (checks/c15.py); see the header of that file. *)
 From Coq Require Import ZArith List Bool.
-From ADF Require Import CPrelude Generated.Leaf Spec.Names Proofs.NamesP.
+From ADF Require Import CPrelude Generated.Leaf Spec.Names Proofs.NamesP Model.Chain Proofs.ChainP.
 Import ListNotations.
 Local Open Scope Z_scope.
 
@@ -40,7 +40,36 @@ Example C15_witness : hash_name true [102;105;108;101;65] = 66 /\ hash_name fals
   c_adfGetHashValue 40 [102;105;108;101;65] 1 = Some 66.
 Proof. repeat split; vm_compute; try reflexivity; intro X; discriminate X. Qed.
 
+(* the lookup / duplicate half, on the block-level directory model (Model/Chain.v: hash table, nextSameHash chains, compare
+   of upper-cased names; tied to adf_dir.c by the block-level correspondence of checks/c02.py and checks/c15.py):
+   after an entry was created under N with block blk, a name M finds blk exactly when M and N have the same key
+   (= equal after cutting to 30 bytes and AmigaDOS upper-casing) - for every directory state related to a finite map,
+   every chain length, every pair of names *)
+Theorem C15_found_iff_same_key : forall intl F G d A n m blk,
+  R intl F d A -> (F <= G)%nat -> A (key intl n) = None -> blk <> 0 -> d_hp d blk = None ->
+  forall d', insert intl G d n blk = Some d' ->
+  forall G', (S F <= G')%nat -> (lookup_blk intl G' d' m = Some blk <-> key intl m = key intl n).
+Proof. exact found_iff_same_key. Qed.
+
+(* no second entry matching an existing name can be created: the call is refused (and returns no new state) *)
+Theorem C15_duplicate_refused : forall intl F G d A n blk b,
+  R intl F d A -> (F <= G)%nat -> A (key intl n) = Some b -> insert intl G d n blk = None.
+Proof. exact insert_dup. Qed.
+
+(* the key used by the model is the same_name relation of Spec/Names.v *)
+Theorem C15_key_is_same_name : forall intl a b, key intl a = key intl b <-> same_name intl a b.
+Proof. intros; unfold key, same_name; tauto. Qed.
+
+Example C15_chain_witness :
+  let d1 := fst (cstep true 50 empty_dir (CIns [99;97;102;233] 900)) in
+  lookup_blk true 50 d1 [67;65;70;201] = Some 900 /\ lookup_blk false 50 (fst (cstep false 50 empty_dir (CIns [99;97;102;233] 900))) [67;65;70;201] = None /\
+  snd (cstep true 50 d1 (CIns [67;65;70;201] 901)) = -1.
+Proof. vm_compute. repeat split; reflexivity. Qed.
+
 Print Assumptions C15_upper_tables.
+Print Assumptions C15_found_iff_same_key.
+Print Assumptions C15_duplicate_refused.
+Print Assumptions C15_key_is_same_name.
 Print Assumptions C15_hash_is_amiga_hash.
 Print Assumptions C15_long_names.
 Print Assumptions C15_hash_fold.
